@@ -282,6 +282,7 @@ def run(ctx):
     selftest(ctx, trace, kd)
     rprogs, rn = random_programs(ctx, 300 if ctx.quick else 4000)
     _, rdistinct = lib.count_distinct(rprogs)
+    rnontrivial = sum(1 for line in lib.read_lines(rprogs) if json.loads(line)["n"] > 0 and json.loads(line)["probes"])
     execute(ctx, rprogs, rn, f"seeded seed={ctx.seed}", kd, totals, name="trace_random")
     if totals.get("runs") != n + rn:
         raise lib.ToolError(f"monitor saw {totals.get('runs')} runs for {n + rn} programs")
@@ -297,7 +298,7 @@ def run(ctx):
     ctx.cov["programs_enumerated_by_tlc"] = n
     ctx.cov["programs_seeded"] = rn
     ctx.cov["evaluations"] = totals.get("flavours", 0)
-    ctx.cov["distinct_nontrivial"] = min(distinct, nontrivial)
+    ctx.cov["distinct_nontrivial"] = min(distinct, nontrivial) + min(rdistinct, rnontrivial)
     ctx.cov["exhaustive"] = True
     ctx.cov["exhaustive_scope"] = ("design level: every map over 6 keys x 2 values, every listed small configuration, every lookup; "
                                    "conformance: every boundary population {0,1,2,P-1,P,P+1,2P,2P+1} of every listed configuration x "
